@@ -102,7 +102,9 @@ def check(F, rep, tier):
     # strict growth with distance needs `distance` to count every commit in <tag>..HEAD; V > X.Y.Z for an uncommitted change needs
     # `dirty` to see every kind of change; exactly X.Y.Z at the tag needs the renderer to keep 64-bit core numbers.
     core.borrow(F, rep, "c02", "C02", "R03.6", ("argv:calculate_distance#0", "distance-range"), "distance counts all commits after the tag")
-    core.borrow(F, rep, "c02", "C02", "R03.6", ("argv:is_dirty#0",), "dirty sees staged, unstaged, untracked and submodule changes")
+    core.borrow(F, rep, "c02", "C02", "R03.6", ("argv:is_dirty#0", "error-swallowed:is_dirty", "dirty-polarity"), "dirty sees staged, unstaged, untracked and submodule changes, and a failing `git status` is not read as clean")
+    core.borrow(F, rep, "c02", "C02", "R03.6", ("not-first-hit", "walk-source", "no-membership-filter", "argv:get_commits_in_topo_order", "argv:get_all_tags_from_commit_hash", "max-by", "error-swallowed:get_latest_tag"), "the base tag is the highest valid tag on the nearest tagged ancestor")
+    core.borrow(F, rep, "c02", "C02", "R03.6", ("wiring:distance", "wiring:dirty", "wiring:bumped_branch", "producer:distance", "producer:is_dirty", "producer:current_branch"), "distance, dirty and branch reach the version unchanged")
     core.borrow(F, rep, "c07", "C07", "R03.6", ("narrowing-parse:",), "SemVer rendering keeps 64-bit core numbers")
     return core.finish(rep, explanation=EXPL, assumptions=ASSUME, trusted=TRUST)
 
